@@ -60,6 +60,7 @@ class Checker:
         self.last_sync = I32MIN
         self.events = []                 # FSM-relevant event trace
         self.timed_out = False
+        self.over = 0                    # loops that did not send although the longest admissible period has passed
 
     def reading(self, c):
         return c[1] + (self.m - c[0]) // 1000
@@ -106,6 +107,7 @@ class Checker:
             self.t_req = t
             self.pending = True
             self.timed_out = False
+            self.over = 0
             self.events.append("send")
         if read_val is not None:
             if not self.pending or self.timed_out:
@@ -140,11 +142,13 @@ class Checker:
             self.t_success = t
             return None
         # no response read in this loop
+        just_failed = False
         if self.pending and not self.timed_out and not sent:
             if not ready and t - self.t_req >= self.timeout:
                 self.timed_out = True
                 self.events.append("timeout")
                 self.fail()
+                just_failed = True
             elif ready:
                 return "a ready response was not read (request outstanding since %d, now %d): %s" % (self.t_req, t, ev)
         msg = self.check_time(now, last, None)
@@ -152,6 +156,21 @@ class Checker:
             msg = "I2: a clock was written without a valid response: %s" % ev
         if msg:
             return msg
+        # I3 (upper side): the retry period never exceeds the sync period ("doubling ... up to the sync period"), so once
+        # max(sync, initial) seconds have passed since the failed request (or since the successful response) the machine may
+        # spend one loop() leaving its waiting state and must send on the next one
+        if not sent and not just_failed and not (self.pending and not self.timed_out):
+            ref = None
+            if self.events and self.events[-1] == "valid":
+                ref = self.t_success
+            elif self.events and self.events[-1] in ("invalid", "timeout"):
+                ref = self.t_req
+            if ref is not None and t - ref >= max(self.sync, self.initial) * 1000:
+                self.over += 1
+                if self.over >= 2:
+                    return ("I3: no request although %d ms have passed since the last %s (sync period %d s, initial period %d s): the "
+                            "retry period in force exceeds the sync period (%s)" % (t - ref, "response" if self.events[-1] == "valid" else "failed request",
+                                                                                   self.sync, self.initial, self.events[-6:]))
         # I4 progress
         base = self.t_req if self.t_req is not None else self.t_start
         bound = max(self.sync, self.initial) * 1000 + self.timeout + 3 * self.maxstep
@@ -190,7 +209,19 @@ def run_sequence(drv, cfg, wiring, m0, seq):
     """seq: [(delta, ready, value)], returns (violation or None, checker)"""
     drv.cmd("NEW %d %d %d %d %d 64" % (wiring, cfg[0], cfg[1], cfg[2], m0))
     ck = Checker(cfg, wiring, m0, max([s[0] for s in seq] + [1]))
+    if any(x[2] == "quiet" for x in seq):
+        # "with no reference clock it only keeps time": the clock is set by hand first, then loop() is the only caller for
+        # stretches longer than the 16-bit millisecond window
+        drv.cmd("SET 100000")
+        ck.cands = [(m0, 100000)]
+        ck.last_sync = 100000
     for i, (d, ready, value) in enumerate(seq):
+        if value == "quiet":
+            r = drv.cmd("STEPQ %d 0 0" % d)
+            ck.m += d
+            if r.partition("|")[2].split():
+                return {"at": i, "message": "I5: calls reached a fake clock although there is no reference clock: %s" % r, "reply": r}, ck
+            continue
         if value == "echo":
             # a valid response equal to what the clock shows at that moment (reference and clock did not drift)
             value = (ck.cands[0][1] + (ck.m + d - ck.cands[0][0]) // 1000) if ck.cands else 100000
@@ -295,7 +326,7 @@ def run(ctx):
         allclasses |= classes
         fails += fl
     # ---- Hypothesis generated longer histories ----
-    hstats = {"n": 0, "fail_after_success": 0, "late_ready_after_timeout": 0, "saturation": 0}
+    hstats = {"n": 0, "fail_after_success": 0, "late_ready_after_timeout": 0, "saturation": 0, "noref_reads_after_65s_of_loops": 0}
     hfails = []
 
     step_strategy = st.tuples(st.integers(0, 8), st.sampled_from(["notready", "notready", "const", "varying", "invalid", "echo"]))
@@ -312,10 +343,19 @@ def run(ctx):
         base = [b for b in STEPS[cfg] + [0, cfg[2] - 1, cfg[2], cfg[0] * 1000 - 1, cfg[0] * 1000] if b <= 60000]
         m = m0
         seq = []
-        for si, o in word:
+        quiet_run = 0
+        for k, (si, o) in enumerate(word):
             s = base[si % len(base)]
             m += s
             ready, v = outcome_value(o, m)
+            if wiring in (0, 4) and o in ("notready", "const", "invalid") and k % 7 != 6:
+                # no reference clock: most loop() calls are not followed by a reading
+                v = "quiet"
+                quiet_run += s
+            else:
+                if quiet_run + s > 65536:
+                    hstats["noref_reads_after_65s_of_loops"] += 1
+                quiet_run = 0
             seq.append((s, ready, v))
         v, ck = run_sequence(drv, cfg, wiring, m0, seq)
         hstats["n"] += 1
@@ -342,6 +382,9 @@ def run(ctx):
     ctx.count("hypothesis_histories", hstats["n"])
     ctx.count("histories_with_failure_after_success", hstats["fail_after_success"])
     ctx.count("histories_with_backoff_saturation", hstats["saturation"])
+    ctx.count("noref_reads_after_65s_of_loops_only", hstats["noref_reads_after_65s_of_loops"])
+    if not (fails or hfails) and hstats["noref_reads_after_65s_of_loops"] < 20:
+        raise vt.HarnessError("generator degenerate (no-reference histories): %r" % hstats)
     ctx.nontrivial = len(allclasses)
     if not (fails or hfails):
         refd = max(1, hstats["n"] * 4 // 6)
